@@ -27,6 +27,7 @@ var fileInputPkgs = map[string]bool{"cisco": true, "linux": true, "nsx": true, "
 
 func checkC20(p *Prog, r *Report) {
 	ruleIndexCalls(p, r)
+	ruleMustOnConstants(p, r)
 	rulePanicAudit(p, r)
 	ruleBounds(p, r)
 	ruleGoroutineAborts(p, r)
